@@ -148,7 +148,6 @@ open Jedi.Gen.AsmX86
 /-! ## symbolic execution, cut into pieces -/
 
 set_option maxHeartbeats 1600000 in
-set_option maxRecDepth 100000 in
 theorem mont_part0 (s : State) (pr pt pp inv : Word)
     (hr : Buf s pr 6 true) (ht : Buf s pt 12 false) (hp : Buf s pp 6 false)
     (hrp : X86.Disjoint pr 6 pp 6) (hstk : Stack s 6)
@@ -193,7 +192,6 @@ theorem mont_part0 (s : State) (pr pt pp inv : Word)
   x86_sym [hst, hpc, hdi, hsi, hdx, hcx, sub8x3_toNat, sub8x4_toNat, sub8x5_toNat, sub8x6_toNat, mulLo_fold, mulHi_fold, imul_fold, logic, BitVec.xor_self, ← hp0, ← hp1, ← hp2, ← hp3, ← hp4, ← hp5, ← hx0, ← hx1, ← hx2, ← hx3, ← hx4, ← hx5, ← hx6, ← hu15, ← hm17l, ← hm17h, ← ht18, ← ht19, ← hm22l, ← hm22h, ← ht23, ← ht24, ← ht25, ← ht26, ← hm29l, ← hm29h, ← ht30, ← ht31, ← ht32, ← ht33, ← hm36l, ← hm36h, ← ht37, ← ht38, ← ht39, ← ht40, ← hm43l, ← hm43h, ← ht44, ← ht45, ← ht46, ← ht47, ← hm50l, ← hm50h, ← ht51, ← ht52, ← ht53, ← ht54, ← ht56, ← ht57]
 
 set_option maxHeartbeats 1600000 in
-set_option maxRecDepth 100000 in
 theorem mont_part1 (s : State) (pr pt pp inv : Word)
     (hr : Buf s pr 6 true) (ht : Buf s pt 12 false) (hp : Buf s pp 6 false)
     (hrp : X86.Disjoint pr 6 pp 6) (hstk : Stack s 6)
@@ -239,7 +237,6 @@ theorem mont_part1 (s : State) (pr pt pp inv : Word)
   x86_sym [sub8x3_toNat, sub8x4_toNat, sub8x5_toNat, sub8x6_toNat, mulLo_fold, mulHi_fold, imul_fold, logic, BitVec.xor_self, ← hp0, ← hp1, ← hp2, ← hp3, ← hp4, ← hp5, ← hx7, ← hu59, ← hm61l, ← hm61h, ← ht62, ← ht63, ← hm66l, ← hm66h, ← ht67, ← ht68, ← ht69, ← ht70, ← hm73l, ← hm73h, ← ht74, ← ht75, ← ht76, ← ht77, ← hm80l, ← hm80h, ← ht81, ← ht82, ← ht83, ← ht84, ← hm87l, ← hm87h, ← ht88, ← ht89, ← ht90, ← ht91, ← hm94l, ← hm94h, ← ht95, ← ht96, ← ht97, ← ht98, ← ht99, ← ht101, ← ht103, ← ht104]
 
 set_option maxHeartbeats 1600000 in
-set_option maxRecDepth 100000 in
 theorem mont_part2 (s : State) (pr pt pp inv : Word)
     (hr : Buf s pr 6 true) (ht : Buf s pt 12 false) (hp : Buf s pp 6 false)
     (hrp : X86.Disjoint pr 6 pp 6) (hstk : Stack s 6)
@@ -285,7 +282,6 @@ theorem mont_part2 (s : State) (pr pt pp inv : Word)
   x86_sym [sub8x3_toNat, sub8x4_toNat, sub8x5_toNat, sub8x6_toNat, mulLo_fold, mulHi_fold, imul_fold, logic, BitVec.xor_self, ← hp0, ← hp1, ← hp2, ← hp3, ← hp4, ← hp5, ← hx8, ← hu106, ← hm108l, ← hm108h, ← ht109, ← ht110, ← hm113l, ← hm113h, ← ht114, ← ht115, ← ht116, ← ht117, ← hm120l, ← hm120h, ← ht121, ← ht122, ← ht123, ← ht124, ← hm127l, ← hm127h, ← ht128, ← ht129, ← ht130, ← ht131, ← hm134l, ← hm134h, ← ht135, ← ht136, ← ht137, ← ht138, ← hm141l, ← hm141h, ← ht142, ← ht143, ← ht144, ← ht145, ← ht146, ← ht148, ← ht150, ← ht151]
 
 set_option maxHeartbeats 1600000 in
-set_option maxRecDepth 100000 in
 theorem mont_part3 (s : State) (pr pt pp inv : Word)
     (hr : Buf s pr 6 true) (ht : Buf s pt 12 false) (hp : Buf s pp 6 false)
     (hrp : X86.Disjoint pr 6 pp 6) (hstk : Stack s 6)
@@ -331,7 +327,6 @@ theorem mont_part3 (s : State) (pr pt pp inv : Word)
   x86_sym [sub8x3_toNat, sub8x4_toNat, sub8x5_toNat, sub8x6_toNat, mulLo_fold, mulHi_fold, imul_fold, logic, BitVec.xor_self, ← hp0, ← hp1, ← hp2, ← hp3, ← hp4, ← hp5, ← hx9, ← hu153, ← hm155l, ← hm155h, ← ht156, ← ht157, ← hm160l, ← hm160h, ← ht161, ← ht162, ← ht163, ← ht164, ← hm167l, ← hm167h, ← ht168, ← ht169, ← ht170, ← ht171, ← hm174l, ← hm174h, ← ht175, ← ht176, ← ht177, ← ht178, ← hm181l, ← hm181h, ← ht182, ← ht183, ← ht184, ← ht185, ← hm188l, ← hm188h, ← ht189, ← ht190, ← ht191, ← ht192, ← ht193, ← ht195, ← ht197, ← ht198]
 
 set_option maxHeartbeats 1600000 in
-set_option maxRecDepth 100000 in
 theorem mont_part4 (s : State) (pr pt pp inv : Word)
     (hr : Buf s pr 6 true) (ht : Buf s pt 12 false) (hp : Buf s pp 6 false)
     (hrp : X86.Disjoint pr 6 pp 6) (hstk : Stack s 6)
@@ -377,7 +372,6 @@ theorem mont_part4 (s : State) (pr pt pp inv : Word)
   x86_sym [sub8x3_toNat, sub8x4_toNat, sub8x5_toNat, sub8x6_toNat, mulLo_fold, mulHi_fold, imul_fold, logic, BitVec.xor_self, ← hp0, ← hp1, ← hp2, ← hp3, ← hp4, ← hp5, ← hx10, ← hu200, ← hm202l, ← hm202h, ← ht203, ← ht204, ← hm207l, ← hm207h, ← ht208, ← ht209, ← ht210, ← ht211, ← hm214l, ← hm214h, ← ht215, ← ht216, ← ht217, ← ht218, ← hm221l, ← hm221h, ← ht222, ← ht223, ← ht224, ← ht225, ← hm228l, ← hm228h, ← ht229, ← ht230, ← ht231, ← ht232, ← hm235l, ← hm235h, ← ht236, ← ht237, ← ht238, ← ht239, ← ht240, ← ht242, ← ht244, ← ht245]
 
 set_option maxHeartbeats 1600000 in
-set_option maxRecDepth 100000 in
 theorem mont_part5 (s : State) (pr pt pp inv : Word)
     (hr : Buf s pr 6 true) (ht : Buf s pt 12 false) (hp : Buf s pp 6 false)
     (hrp : X86.Disjoint pr 6 pp 6) (hstk : Stack s 6)
@@ -422,7 +416,6 @@ theorem mont_part5 (s : State) (pr pt pp inv : Word)
   x86_sym [sub8x3_toNat, sub8x4_toNat, sub8x5_toNat, sub8x6_toNat, mulLo_fold, mulHi_fold, imul_fold, logic, BitVec.xor_self, ← hp0, ← hp1, ← hp2, ← hp3, ← hp4, ← hp5, ← hx11, ← hu247, ← hm249l, ← hm249h, ← ht250, ← ht251, ← hm254l, ← hm254h, ← ht255, ← ht256, ← ht257, ← ht258, ← hm261l, ← hm261h, ← ht262, ← ht263, ← ht264, ← ht265, ← hm268l, ← hm268h, ← ht269, ← ht270, ← ht271, ← ht272, ← hm275l, ← hm275h, ← ht276, ← ht277, ← ht278, ← ht279, ← hm282l, ← hm282h, ← ht283, ← ht284, ← ht285, ← ht286, ← ht287, ← ht288]
 
 set_option maxHeartbeats 1600000 in
-set_option maxRecDepth 100000 in
 theorem mont_tail_lt (s : State) (pr pt pp inv : Word)
     (hr : Buf s pr 6 true) (ht : Buf s pt 12 false) (hp : Buf s pp 6 false)
     (hrp : X86.Disjoint pr 6 pp 6) (hstk : Stack s 6)
@@ -450,7 +443,6 @@ theorem mont_tail_lt (s : State) (pr pt pp inv : Word)
   x86_sym [sub8x3_toNat, sub8x4_toNat, sub8x5_toNat, sub8x6_toNat, mulLo_fold, mulHi_fold, imul_fold, logic, BitVec.xor_self, ← hp5, ← ht290, hlt]
 
 set_option maxHeartbeats 1600000 in
-set_option maxRecDepth 100000 in
 theorem mont_tail_gt (s : State) (pr pt pp inv : Word)
     (hr : Buf s pr 6 true) (ht : Buf s pt 12 false) (hp : Buf s pp 6 false)
     (hrp : X86.Disjoint pr 6 pp 6) (hstk : Stack s 6)
@@ -483,7 +475,6 @@ theorem mont_tail_gt (s : State) (pr pt pp inv : Word)
   x86_sym [sub8x3_toNat, sub8x4_toNat, sub8x5_toNat, sub8x6_toNat, mulLo_fold, mulHi_fold, imul_fold, logic, BitVec.xor_self, ← hp0, ← hp1, ← hp2, ← hp3, ← hp4, ← hp5, ← ht290, ← ht293, ← ht295, ← ht297, ← ht299, ← ht301, ← ht303, hlt, hz]
 
 set_option maxHeartbeats 1600000 in
-set_option maxRecDepth 100000 in
 theorem mont_tail_eqb (s : State) (pr pt pp inv : Word)
     (hr : Buf s pr 6 true) (ht : Buf s pt 12 false) (hp : Buf s pp 6 false)
     (hrp : X86.Disjoint pr 6 pp 6) (hstk : Stack s 6)
@@ -516,7 +507,6 @@ theorem mont_tail_eqb (s : State) (pr pt pp inv : Word)
   x86_sym [sub8x3_toNat, sub8x4_toNat, sub8x5_toNat, sub8x6_toNat, mulLo_fold, mulHi_fold, imul_fold, logic, BitVec.xor_self, ← hp0, ← hp1, ← hp2, ← hp3, ← hp4, ← hp5, ← ht290, ← ht313, ← ht315, ← ht317, ← ht319, ← ht321, ← ht323, hlt, hz, hbw]
 
 set_option maxHeartbeats 1600000 in
-set_option maxRecDepth 100000 in
 theorem mont_tail_eqn (s : State) (pr pt pp inv : Word)
     (hr : Buf s pr 6 true) (ht : Buf s pt 12 false) (hp : Buf s pp 6 false)
     (hrp : X86.Disjoint pr 6 pp 6) (hstk : Stack s 6)
@@ -552,7 +542,6 @@ theorem mont_tail_eqn (s : State) (pr pt pp inv : Word)
 /-! ## the theorem -/
 
 set_option maxHeartbeats 1600000 in
-set_option maxRecDepth 100000 in
 /-- `void fpbase_384_montgomery_reduce(res, T, p, inv)`: `res < P` and `res·2^384 ≡ T (mod P)` -/
 theorem fpbase_384_montgomery_reduce_run (s : State) (pr pt pp inv : Word)
     (hst : s.status = .running) (hpc : s.pc = 0) (hdi : s.rdi = pr) (hsi : s.rsi = pt) (hdx : s.rdx = pp) (hcx : s.rcx = inv)
@@ -866,14 +855,14 @@ theorem fpbase_384_montgomery_reduce_run (s : State) (pr pt pp inv : Word)
       refine ⟨_, run_fuel hall rfl 338 (by omega), ?_⟩
       clear hq0 hq1 hq2 hq3 hq4 hq5 hq6 hall
       refine ⟨⟨rfl, ?_, ?_, ?_, ?_, ?_, ?_, ?_, ?_⟩, and_assoc.mp ⟨?_, ?_⟩⟩
-      · first | rfl | simp only
-      · first | rfl | simp only
-      · first | rfl | simp only
-      · first | rfl | simp only
-      · first | rfl | simp only
-      · first | rfl | simp only
-      · first | rfl | simp only
-      · first | rfl | simp only
+      · rfl
+      · rfl
+      · rfl
+      · rfl
+      · rfl
+      · rfl
+      · rfl
+      · rfl
       · x86_mem
         obtain ⟨loR, hloR, hRs, hRb⟩ := val6_split t257.val t264.val t271.val t278.val t285.val t288.val
         obtain ⟨loP, hloP, hPs, hPb⟩ := val6_split p0 p1 p2 p3 p4 p5
@@ -900,14 +889,14 @@ theorem fpbase_384_montgomery_reduce_run (s : State) (pr pt pp inv : Word)
         refine ⟨_, run_fuel hall rfl 338 (by omega), ?_⟩
         clear hq0 hq1 hq2 hq3 hq4 hq5 hq6 hall
         refine ⟨⟨rfl, ?_, ?_, ?_, ?_, ?_, ?_, ?_, ?_⟩, and_assoc.mp ⟨?_, ?_⟩⟩
-        · first | rfl | simp only
-        · first | rfl | simp only
-        · first | rfl | simp only
-        · first | rfl | simp only
-        · first | rfl | simp only
-        · first | rfl | simp only
-        · first | rfl | simp only
-        · first | rfl | simp only
+        · rfl
+        · rfl
+        · rfl
+        · rfl
+        · rfl
+        · rfl
+        · rfl
+        · rfl
         · x86_mem
           obtain ⟨loR, hloR, hRs, hRb⟩ := val6_split t257.val t264.val t271.val t278.val t285.val t288.val
           obtain ⟨loP, hloP, hPs, hPb⟩ := val6_split p0 p1 p2 p3 p4 p5
@@ -933,14 +922,14 @@ theorem fpbase_384_montgomery_reduce_run (s : State) (pr pt pp inv : Word)
         refine ⟨_, run_fuel hall rfl 338 (by omega), ?_⟩
         clear hq0 hq1 hq2 hq3 hq4 hq5 hq6 hall
         refine ⟨⟨rfl, ?_, ?_, ?_, ?_, ?_, ?_, ?_, ?_⟩, and_assoc.mp ⟨?_, ?_⟩⟩
-        · first | rfl | simp only
-        · first | rfl | simp only
-        · first | rfl | simp only
-        · first | rfl | simp only
-        · first | rfl | simp only
-        · first | rfl | simp only
-        · first | rfl | simp only
-        · first | rfl | simp only
+        · rfl
+        · rfl
+        · rfl
+        · rfl
+        · rfl
+        · rfl
+        · rfl
+        · rfl
         · x86_mem
           obtain ⟨loR, hloR, hRs, hRb⟩ := val6_split t257.val t264.val t271.val t278.val t285.val t288.val
           obtain ⟨loP, hloP, hPs, hPb⟩ := val6_split p0 p1 p2 p3 p4 p5
@@ -966,14 +955,14 @@ theorem fpbase_384_montgomery_reduce_run (s : State) (pr pt pp inv : Word)
     refine ⟨_, run_fuel hall rfl 338 (by omega), ?_⟩
     clear hq0 hq1 hq2 hq3 hq4 hq5 hq6 hall
     refine ⟨⟨rfl, ?_, ?_, ?_, ?_, ?_, ?_, ?_, ?_⟩, and_assoc.mp ⟨?_, ?_⟩⟩
-    · first | rfl | simp only
-    · first | rfl | simp only
-    · first | rfl | simp only
-    · first | rfl | simp only
-    · first | rfl | simp only
-    · first | rfl | simp only
-    · first | rfl | simp only
-    · first | rfl | simp only
+    · rfl
+    · rfl
+    · rfl
+    · rfl
+    · rfl
+    · rfl
+    · rfl
+    · rfl
     · x86_mem
       obtain ⟨loR, hloR, hRs, hRb⟩ := val6_split t257.val t264.val t271.val t278.val t285.val t288.val
       obtain ⟨loP, hloP, hPs, hPb⟩ := val6_split p0 p1 p2 p3 p4 p5
